@@ -375,3 +375,6 @@ def r7(run, db):
 Q = ["dflt"]
 TH = ["dflt", "rc", "atr", "astd"]
 RULES = [{"id": "C13.R%d" % i, "fn": f, "quick": Q, "thorough": TH} for i, f in enumerate([r1, r2, r3, r4, r5, r6, r7], 1)]
+from .etype import witness_rule
+RULES.append({"id": "C13.W", "fn": witness_rule(['W4JobNoClone', 'W6JobMoved']), "quick": [], "thorough": [], "no_db": True})
+DOC["C13.W"] = 'E-TYPE witnesses W4 (Job::clone is E0599) and W6 (use of a job after moving it into a dispatch message is E0382)'
